@@ -105,7 +105,7 @@ def c03a(ck, prog):
         # the buffer must not be written unchecked twice with the same term nor after being sent: each write consumed one term
     # the floor is on the buffers found, not on how many of them are written unchecked: replacing the unchecked pushes by
     # checked ones is a correct change and must not be reported
-    ck.floor(R, "output buffers built in send", len(caps), 5)
+    ck.floor(R, "output buffers built in send", len(caps), 3)
     # WHO: write_unchecked_to is called only by functions that reserved `size` for the same Headers
     callers = prog.callers().get("ohkami::response::headers::Headers::write_unchecked_to", [])
     for c in callers:
@@ -125,7 +125,7 @@ def c03a(ck, prog):
             continue
         for c in fn.calls():
             if c.name == "copy_nonoverlapping" and "push_unchecked" in " ".join(c.mx):
-                ok = re.search(r"^ohkami::response::(Response::send::\{closure#0\}|headers::Headers::write_unchecked_to)$", fn.key) is not None
+                ok = re.search(r"^ohkami::response::(Response::send::\{closure#0\}|headers::Headers::write_unchecked_to(::\w+)?)$", fn.key) is not None
                 if not ok:
                     ck.ob(R, "who:push_unchecked-in:" + fn.key[-70:], False, fn.loc(c.sp), "push_unchecked! is used in %s, outside the functions whose capacity this rule accounts for" % fn.key)
 
@@ -325,14 +325,27 @@ def c03b(ck, prog):
             ck.ob(R, "who:size<-" + f.key[-60:], ok, f.loc(st.get("sp")), "" if ok else "`size` of the response headers is assigned in %s, outside the audited mutators" % f.key, how="audited mutator")
     # TABLE: literals accounted == literals written, per entry kind
     w = prog.one(r"^ohkami::response::headers::Headers::write_unchecked_to$")
+    w = prog.inlined(w, 2, r"copy_nonoverlapping$")     # a per-line helper may hold the pushes
     written = []
-    for c in w.calls():
+    rpo = w.rpo()
+    for c in sorted(w.calls(), key=lambda c: rpo.get(c.bb, 10 ** 6)):
         if c.name == "copy_nonoverlapping":
             src = w.origin(c.args[0])
             sc = src[-1][1] if src and src[-1][0] == "call" else None
             a = w.const_args(sc)[0] if sc is not None else None
-            written.append(a.get("s") if a else decision.describe_deep(w, sc.args[0] if sc else c.args[0], 3))
-    lits_written = [x for x in written if x in (": ", "\r\n", "Set-Cookie: ")]
+            written.append((a.get("s") if a else decision.describe_deep(w, sc.args[0] if sc else c.args[0], 3), c.bb))
+    # adjacent literals are one literal on the wire (`"Set-Cookie"` + `": "` = `"Set-Cookie: "`)
+    from .lib.bound import natural_loops
+    wloops = natural_loops(w)
+    inner = lambda bb: min([h for h, body in wloops.items() if bb in body], key=lambda h: len(wloops[h]), default=None)
+    merged = []
+    for x, xbb in written:
+        is_lit = isinstance(x, str) and re.fullmatch(r"[A-Za-z-]*:? ?|\r\n|: ", x) is not None and x != ""
+        if is_lit and merged and merged[-1][0] == "lit" and merged[-1][2] == inner(xbb):
+            merged[-1] = ("lit", merged[-1][1] + x, inner(xbb))
+        else:
+            merged.append(("lit", x, inner(xbb)) if is_lit else ("var", x, inner(xbb)))
+    lits_written = [m[1] for m in merged if m[0] == "lit"]
     ok = lits_written == [": ", "\r\n", ": ", "\r\n", "Set-Cookie: ", "\r\n", "\r\n"]
     ck.ob(R, "table:writer-literals", ok, w.loc(None), "" if ok else "write_unchecked_to emits literals %r, expected name ': ' value CRLF per header, 'Set-Cookie: ' value CRLF per cookie and the final CRLF" % lits_written,
           how="writer literals %r" % lits_written)
@@ -343,6 +356,7 @@ def c03b(ck, prog):
     for f in fns:
         if f.name not in expect or (f.name == "SetCookie" and "SetHeaders" not in f.self_ty):
             continue
+        f = prog.inlined(f, 2, r"^core::str::<impl str>::len$")     # a size helper may hold the literal lengths
         lens = []
         for c in f.calls():
             if c.name == "len" and c.args:
